@@ -4,9 +4,13 @@
   has the documented properties (exact at solutions, hold at the ends, invalid solutions ignored,
   self-calibration isolation, no extrapolation of bandpasses).
 -/
+import Mathlib.Tactic.LinearCombination
+import Mathlib.Tactic.Ring
 import KatdalModel.Lemmas.ApplyCalInterp
 import KatdalModel.Lemmas.ApplyCalCalc
 open Np
+
+set_option linter.unusedSectionVars false
 
 namespace ApplyCal
 
@@ -23,6 +27,63 @@ theorem unwrap_length (R : ROps F) (l : List F) : (unwrap R l).length = l.length
   cases l with
   | nil => rfl
   | cons p t => simp [unwrap, unwrapGo_length]
+
+/-- one phase correction of `np.unwrap` is a whole number of turns, provided `np.mod(a, b)` differs
+    from `a` by a whole multiple of `b` -/
+theorem unwrap_corr_turns [LawfulBEq F] (R : ROps F) (hmod : ∀ a b : F, ∃ n : ℤ, R.fmod a b = a - n * b) (dd : F) :
+    ∃ j : ℤ, (if absF dd < R.pi then (0 : F) else
+        (if (R.fmod (dd + R.pi) (R.pi + R.pi) - R.pi == -R.pi) && decide (0 < dd) then R.pi
+         else R.fmod (dd + R.pi) (R.pi + R.pi) - R.pi) - dd) = j * (R.pi + R.pi) := by
+  obtain ⟨n, hn⟩ := hmod (dd + R.pi) (R.pi + R.pi)
+  split
+  · exact ⟨0, by simp⟩
+  · split
+    · rename_i hc
+      simp only [Bool.and_eq_true, beq_iff_eq, decide_eq_true_eq] at hc
+      refine ⟨1 - n, ?_⟩
+      have h := hc.1
+      rw [hn] at h
+      push_cast
+      linear_combination (-1 : F) * h
+    · refine ⟨-n, ?_⟩
+      rw [hn]
+      push_cast
+      ring
+
+theorem unwrapGo_shift [LawfulBEq F] (R : ROps F) (hmod : ∀ a b : F, ∃ n : ℤ, R.fmod a b = a - n * b) :
+    ∀ (l : List F) (prev cum : F) (m : ℤ), cum = m * (R.pi + R.pi) →
+      ∀ k (hk : k < l.length), ∃ n : ℤ,
+        (unwrapGo R prev cum l)[k]'(by simp [unwrapGo_length, hk]) = l[k] + n * (R.pi + R.pi)
+  | [], _, _, _, _, k, hk => by simp at hk
+  | p :: t, prev, cum, m, hcum, k, hk => by
+    obtain ⟨j, hj⟩ := unwrap_corr_turns R hmod (p - prev)
+    have hcum' : cum + (if absF (p - prev) < R.pi then (0 : F) else
+        (if (R.fmod (p - prev + R.pi) (R.pi + R.pi) - R.pi == -R.pi) && decide (0 < p - prev) then R.pi
+         else R.fmod (p - prev + R.pi) (R.pi + R.pi) - R.pi) - (p - prev)) = ((m + j : ℤ) : F) * (R.pi + R.pi) := by
+      rw [hj, hcum]; push_cast; ring
+    cases k with
+    | zero =>
+      refine ⟨m + j, ?_⟩
+      simp only [unwrapGo, List.getElem_cons_zero]
+      rw [hcum']
+    | succ k =>
+      simp only [List.length_cons] at hk
+      obtain ⟨n, hn⟩ := unwrapGo_shift R hmod t p _ (m + j) hcum' k (by omega)
+      exact ⟨n, by simpa [unwrapGo] using hn⟩
+
+/-- **`np.unwrap` only adds whole turns** -/
+theorem unwrap_shift [LawfulBEq F] (R : ROps F) (hmod : ∀ a b : F, ∃ n : ℤ, R.fmod a b = a - n * b)
+    (ps : List F) (k : Nat) (hk : k < ps.length) :
+    ∃ n : ℤ, (unwrap R ps)[k]'(by simp [unwrap_length, hk]) = ps[k] + n * (R.pi + R.pi) := by
+  cases ps with
+  | nil => simp at hk
+  | cons p t =>
+    cases k with
+    | zero => exact ⟨0, by simp [unwrap]⟩
+    | succ k =>
+      simp only [List.length_cons] at hk
+      obtain ⟨n, hn⟩ := unwrapGo_shift R hmod t p 0 0 (by simp) k (by omega)
+      exact ⟨n, by simpa [unwrap] using hn⟩
 
 /-- the unwrapped phases of the nodes of `pts` -/
 def phasesOf (A : CAlg S F) (R : ROps F) (pts : List (F × S)) : List F := unwrap R (pts.map fun p => A.angle p.2)
